@@ -35,7 +35,10 @@ MANIFEST = {
             'untouched.  Also: two-key sorts over Decimal / date and bool / '
             'bytes keys, the sequence given as an expression, and a second '
             'render of the same template and list after the keys of the '
-            'element objects were rotated in place.',
+            'element objects were rotated in place; numbers of different '
+            'types (int, float, Decimal, Fraction) in one column; a '
+            'callable first key of two; key-less sorts with a comparison '
+            'function / direction (sort="/cmp/desc").',
     'note': 'Trusted: the 30-line comparison model in this driver (Python '
             '<, str.lower for nocase).  The mutual order of None/missing '
             'keys is not checked, as the statement says.',
